@@ -61,11 +61,17 @@ pub fn worker(name: &str) {
     for line in stdin.lock().lines() {
         let Ok(line) = line else { break };
         let input = if line == "-" { vec![] } else { (0..line.len() / 2).map(|i| u8::from_str_radix(&line[2 * i..2 * i + 2], 16).unwrap_or(0)).collect::<Vec<u8>>() };
-        crate::ALLOC_MAX.store(0, std::sync::atomic::Ordering::Relaxed);
+        use std::sync::atomic::Ordering::Relaxed;
+        crate::ALLOC_MAX.store(0, Relaxed);
+        let base = crate::ALLOC_LIVE.load(Relaxed);
+        crate::ALLOC_PEAK.store(base, Relaxed);
         let t = Instant::now();
-        let r = guarded(|| decode(name, &input));
+        // on a thread with a 1 MiB stack (half of a default thread stack): recursion per input element shows
+        let nm = name.to_string();
+        let r = std::thread::Builder::new().stack_size(1 << 20).spawn(move || guarded(|| decode(&nm, &input))).ok().and_then(|h| h.join().ok()).flatten();
         let us = t.elapsed().as_micros();
-        let big = crate::ALLOC_MAX.load(std::sync::atomic::Ordering::Relaxed);
+        // the larger of the largest single request and the peak of the bytes held at one time
+        let big = crate::ALLOC_MAX.load(Relaxed).max(crate::ALLOC_PEAK.load(Relaxed).saturating_sub(base + (1 << 20)));
         let _ = writeln!(out, "res={} alloc={} us={}", match r { None => "panic", Some(true) => "ok", Some(false) => "err" }, big, us);
         let _ = out.flush();
     }
@@ -125,7 +131,12 @@ fn mutate(ctx: &mut Ctx, valid: &[Vec<u8>], n: usize, text: bool) -> Vec<Vec<u8>
             4 => { let mut b = base.clone(); if !b.is_empty() { let i = ctx.rng.below(b.len() as u64) as usize; let h = *ctx.rng.pick(&huge); b.truncate(i); b.extend_from_slice(h); } b }    // ... and the input ends there
             5 => { let depth = *ctx.rng.pick(&[200usize, 5000, 100_000]); if text { let mut b = vec![b'['; depth]; b.extend(vec![b']'; depth]); b } else { let mut b = vec![0x81u8; depth]; b.push(0); b } }  // deep nesting
             6 => { let mut b = base.clone(); if !b.is_empty() { let i = ctx.rng.below(b.len() as u64) as usize; let depth = 3000; let nest: Vec<u8> = if text { vec![b'{'; 1].into_iter().chain(b"\"a\":".iter().copied()).cycle().take(5 * depth).collect() } else { vec![0x81u8; depth] }; b.splice(i..i, nest); } b }
-            7 => ctx.rng.bytes_in(0, 80),                                                                                       // arbitrary bytes
+            7 => if text && ctx.rng.bool() {
+                    // a multi-byte character spliced in at a random character boundary
+                    match String::from_utf8(base.clone()) { Ok(st) => { let chars: Vec<char> = st.chars().collect(); let i = ctx.rng.below(chars.len() as u64 + 1) as usize;
+                        let mut o: String = chars[..i].iter().collect(); o.push(*ctx.rng.pick(&['\u{e9}', '\u{20ac}', '\u{1f600}', '\u{7f}', '\u{0}'])); o.extend(chars[(i + ctx.rng.below(2) as usize).min(chars.len())..].iter()); o.into_bytes() }
+                        Err(_) => ctx.rng.bytes_in(0, 80) }
+                } else { ctx.rng.bytes_in(0, 80) },                                                                              // arbitrary bytes
             _ => { let mut b = base.clone(); if b.len() > 2 { let i = ctx.rng.below(b.len() as u64 - 1) as usize; b.swap(i, i + 1); b.remove(i); } b }
         };
         out.push(m);
@@ -177,11 +188,18 @@ pub fn gen(ctx: &mut Ctx) {
       let inputs = mutate(ctx, &valid, n, true); run_inputs(ctx, "base64", &inputs); }
     { let fp = "B3:5B:68:D5:CE:84:50:55:7C:6A:55:FD:64:B5:1F:EA:C1:10:CB:36:D6:A3:52:1C:59:48:DB:3A:38:0A:34:A9";
       let valid = vec![fp.as_bytes().to_vec(), fp.to_lowercase().into_bytes(), fp[..50].as_bytes().to_vec(), format!("{}:{}", fp, fp).into_bytes(), vec![b':'; 100_000], "AA:".repeat(50_000).into_bytes()];
-      let inputs = mutate(ctx, &valid, n, true); run_inputs(ctx, "fingerprint", &inputs); }
+      let mut inputs = mutate(ctx, &valid, n, true);
+      // a multi-byte character at each of the first offsets (inside a hex pair, at a separator, after one)
+      for k in 0..9usize { for ch in ['\u{e9}', '\u{20ac}', '\u{1f600}'] { let mut t: String = fp.chars().take(k).collect(); t.push(ch); t.extend(fp.chars().skip(k + 1)); inputs.push(t.into_bytes()); } }
+      for t in ["B\u{e9}", "B3:5\u{20ac}", "\u{e9}", "B3:\u{1f600}"] { inputs.push(t.as_bytes().to_vec()); }
+      run_inputs(ctx, "fingerprint", &inputs); }
     { let valid: Vec<Vec<u8>> = ["https://www.example.com example.com", "https://example.com ", "https://b\u{fc}cher.example b\u{fc}cher.example", "https://a.b.c.d.example.co.uk example.co.uk",
         "http://localhost:8080 localhost", "https://example.com .", "https://example.com ..com", "https://xn--55qx5d.cn xn--55qx5d.cn"].iter().map(|s| s.as_bytes().to_vec()).collect();
       let mut inputs = mutate(ctx, &valid, n, true);
       inputs.push(format!("https://{}example.com {}example.com", "a.".repeat(20_000), "a.".repeat(20_000)).into_bytes());
+      inputs.push(format!("https://{}example.com example.com", "a.".repeat(100_000)).into_bytes());
+      inputs.push(format!("https://{}example.com other.org", "a.".repeat(100_000)).into_bytes());
+      inputs.push(format!("https://example.com {}example.com", "a.".repeat(100_000)).into_bytes());
       run_inputs(ctx, "rpId", &inputs); }
     { let valid: Vec<Vec<u8>> = ["www.example.com", "example.co.uk", "a.b.kobe.jp", "xn--55qx5d.cn", "", ".", "..", "com", "\u{4e2d}\u{6587}.\u{4e2d}\u{56fd}"].iter().map(|s| s.as_bytes().to_vec()).collect();
       let mut inputs = mutate(ctx, &valid, n, true);
@@ -206,6 +224,8 @@ pub fn gen(ctx: &mut Ctx) {
       let mut inputs = mutate(ctx, &valid, 2 * n, false);
       for l in 1..12u8 { let mut v = vec![l]; v.extend(vec![0x83u8; l as usize]); inputs.push(v); }
       inputs.push(vec![7, 1, 2, 3, 4, 0x83, 0, 5]);
+      // many minimal init packets, each on its own channel, each declaring the largest payload and carrying none of it
+      for count in [200usize, 2000] { let mut v = vec![]; for c in 0..count { v.push(7u8); v.extend([(c >> 8) as u8, c as u8, 0x55, 0xaa, 0x90, 0xff, 0xff]); } inputs.push(v); }
       run_inputs(ctx, "hid.packets", &inputs); }
     // ---- COSE keys handed to the public-key converter
     { use coset::{CborSerializable, CoseKeyBuilder, iana};
